@@ -1,3 +1,767 @@
-/* placeholder, replaced when the mode is implemented */
+/*
+ * m_experiment.c - C19: cimba_run_experiment runs every trial exactly once, on
+ * its own element, returns after all have finished, and the results do not
+ * depend on the assignment of trials to worker threads.
+ *
+ * A case describes an experiment: number of trials, trial struct size, a master
+ * seed and a "mix" of trial kinds. Everything about trial i (kind, seed, amount
+ * of work) is a pure function of (master, i), so a trial function "seeds the
+ * generator from its own parameters". The same case text is executed in three
+ * ways, each in its own fresh child process:
+ *
+ *   run par   cimba_run_experiment(array, n, size, func)   (the code under test)
+ *   run seq   for i in 0..n-1: func(&array[i])              (single thread)
+ *   run sub   for i in offset, offset+stride, ...: func(&array[i])   (single
+ *             thread; what one worker sees when it is dealt a subset of the
+ *             trials: "whatever ran earlier on the same worker thread";
+ *             stride and offset come from the "subplan" line)
+ *
+ * In-executor oracle (run par): right after cimba_run_experiment returns no
+ * trial is in flight and n trials have finished; no call received a pointer
+ * that is not an element of the array; every element was called exactly once
+ * (harness-side atomic shadow counter) and its own counter word is 1; guard
+ * words at the end of every element and the payload written by the trial are
+ * intact. The trace carries one digest per trial ("T" lines for the first 8192
+ * trials, "B" lines = hash over blocks of 1024 trials for all of them); the
+ * Python side demands par == seq on all lines and sub == seq on the trials the
+ * sub-run executed.
+ *
+ * Trial element layout (S = trial struct size, a multiple of 8):
+ *   S == 8            [ digest:48 | counter:16 ]
+ *   S == 16           [ counter ][ digest ]
+ *   S >= 24           [ counter ][ digest ][ payload ... ][ guard ]
+ *   per-trial funcs   [ func ptr ] followed by the layout for S - 8 (S >= 16)
+ */
+#include <inttypes.h>
+#include <pthread.h>
+#include <stdatomic.h>
+#include <stdlib.h>
+#include <string.h>
+#include <time.h>
+#include <xmmintrin.h>
+
+#include "cimba.h"
+
 #include "cimx.h"
-int mode_experiment(char *text, FILE *trace) { (void)text; fprintf(trace, "F mode experiment not implemented\n"); return CIMX_PARSE_ERROR; }
+
+enum kind { K_ZERO = 0, K_BUSY, K_LONG, K_RNG, K_FLIP, K_SIM, K_TAGS, K_LOG, K_NAP, K_TIES, K_NKINDS };
+static const char *const kind_names[K_NKINDS] = { "zero", "busy", "long", "rng", "flip", "sim", "tags", "log", "nap", "ties" };
+
+enum runmode { RUN_PAR = 0, RUN_SEQ, RUN_SUB };
+
+#define MAX_MIX 32
+#define T_LINES 8192u
+#define B_BLOCK 1024u
+#define MAX_WORKERS 1024
+
+struct xcase {
+    enum runmode run;
+    int perfunc;
+    uint64_t n;
+    size_t ssize;
+    uint64_t master;
+    int nmix;
+    uint8_t mix[MAX_MIX];
+    uint64_t tail_n;
+    int tail_kind;
+    uint64_t stride, offset;
+};
+
+/* ----------------------------------------------------------------- globals -- */
+/* Written before the run, read-only while trials execute */
+static struct xcase g;
+static char *g_base;
+
+/* Harness-side observation, all atomic */
+static _Atomic uint8_t *g_calls;
+static atomic_long g_inflight, g_finished, g_started;
+static atomic_int g_badptr, g_wrongfunc;
+static atomic_long g_badcalls;
+static atomic_long g_badoff;
+static atomic_int g_nworkers;
+static atomic_long g_after_other;      /* trials that ran on a worker that had run another before */
+static atomic_long g_rng_after_rng;    /* generator-using trial after another generator-using one */
+static long g_per_worker[MAX_WORKERS]; /* each worker writes only its own slot */
+
+static _Thread_local int my_worker = -1;
+static _Thread_local int my_prev_used_rng = 0;
+
+/* ------------------------------------------------------------------ hashing -- */
+
+static inline uint64_t mix64(uint64_t z)
+{
+    z = (z ^ (z >> 30)) * UINT64_C(0xbf58476d1ce4e5b9);
+    z = (z ^ (z >> 27)) * UINT64_C(0x94d049bb133111eb);
+    return z ^ (z >> 31);
+}
+
+static inline uint64_t trial_hash(const uint64_t idx)
+{
+    return mix64(g.master + (idx + 1u) * UINT64_C(0x9e3779b97f4a7c15));
+}
+
+static inline uint64_t dbits(const double d)
+{
+    uint64_t u;
+    memcpy(&u, &d, sizeof u);
+    return u;
+}
+
+#define ACC(d, v) ((d) = mix64((d) ^ (uint64_t)(v)) + UINT64_C(0x632be59bd9b4e019))
+
+static int kind_of(const uint64_t idx)
+{
+    if (g.tail_n > 0 && idx + g.tail_n >= g.n) return g.tail_kind;
+    return g.mix[(trial_hash(idx) >> 40) % (unsigned)g.nmix];
+}
+
+/* ------------------------------------------------------------ element layout -- */
+
+static inline size_t body_off(void) { return g.perfunc ? 8u : 0u; }
+static inline size_t body_sz(void) { return g.ssize - body_off(); }
+static inline uint64_t guard_word(const uint64_t idx) { return mix64(trial_hash(idx) ^ UINT64_C(0x6a09e667f3bcc908)); }
+static inline uint64_t pay_word(const uint64_t digest, const size_t j) { return mix64(digest + j * UINT64_C(0x9e3779b97f4a7c15)); }
+
+static uint64_t elem_counter(const char *t)
+{
+    const uint64_t *w = (const uint64_t *)(const void *)(t + body_off());
+    return (body_sz() == 8u) ? (w[0] & 0xffffu) : w[0];
+}
+
+static uint64_t elem_digest(const char *t)
+{
+    const uint64_t *w = (const uint64_t *)(const void *)(t + body_off());
+    return (body_sz() == 8u) ? (w[0] >> 16) : w[1];
+}
+
+static void elem_store(char *t, const uint64_t digest)
+{
+    uint64_t *w = (uint64_t *)(void *)(t + body_off());
+    const size_t bs = body_sz();
+    if (bs == 8u) {
+        const uint64_t cnt = ((w[0] & 0xffffu) + 1u) & 0xffffu;
+        w[0] = (digest << 16) | cnt;
+        return;
+    }
+    w[0] = w[0] + 1u;
+    w[1] = digest;
+    if (bs >= 24u) {
+        const size_t npay = bs / 8u - 3u;
+        for (size_t j = 0; j < npay; j++) w[2 + j] = pay_word(digest, j);
+    }
+}
+
+/* ------------------------------------------------------------- trial kinds -- */
+
+#define UFLAG1 UINT32_C(0x00000001)
+#define UFLAG2 UINT32_C(0x00000002)
+
+static uint64_t do_busy(const uint64_t h, const uint64_t iters)
+{
+    uint64_t x = h;
+    for (uint64_t i = 0; i < iters; i++) x = mix64(x + i);
+    return x;
+}
+
+static uint64_t do_rng(const uint64_t h)
+{
+    static const double shapes[4] = { 1.0, 2.5, 7.0, 1.5 };
+    uint64_t d = h;
+    cmb_random_initialize(h);
+    const unsigned nflip1 = 1u + 2u * (unsigned)((h >> 8) % 16u);      /* odd: 1..31 */
+    for (unsigned i = 0; i < nflip1; i++) ACC(d, cmb_random_flip());
+    ACC(d, dbits(cmb_random()));
+    ACC(d, dbits(cmb_random_std_normal()));
+    ACC(d, dbits(cmb_random_exponential(2.0)));
+    ACC(d, dbits(cmb_random_gamma(shapes[(h >> 16) % 4u], 1.5)));
+    ACC(d, cmb_random_dice(1, 6));
+    ACC(d, cmb_random_bernoulli(0.3));
+    ACC(d, dbits(cmb_random_uniform(-1.0, 3.0)));
+    const unsigned nflip2 = 1u + (unsigned)((h >> 20) % 5u);
+    for (unsigned i = 0; i < nflip2; i++) ACC(d, cmb_random_flip());
+    ACC(d, cmb_random_sfc64());
+    if (h & 0x10u) cmb_random_terminate();      /* optional by its documentation */
+    return d;
+}
+
+static uint64_t do_flip(const uint64_t h)
+{
+    uint64_t d = h;
+    cmb_random_initialize(h);
+    ACC(d, cmb_random_flip());
+    ACC(d, cmb_random_sfc64());
+    if (h & 0x10u) cmb_random_terminate();
+    return d;
+}
+
+static uint64_t do_log(const uint64_t idx, const uint64_t h)
+{
+    /* define our own logging state completely, log a little, leave the mask dirty */
+    cmb_logger_flags_on(UINT32_C(0xFFFFFFFF));
+    if (h & 1u) cmb_logger_flags_off(CMB_LOGGER_INFO);
+    if (h & 2u) cmb_logger_flags_off(UFLAG1);
+    cmb_logger_user(stdout, UFLAG1, "trial %" PRIu64 " user flag 1", idx);
+    cmb_logger_user(stdout, UFLAG2, "trial %" PRIu64 " user flag 2", idx);
+    cmb_logger_info(stdout, "trial %" PRIu64 " info", idx);
+    if (h & 4u) cmb_logger_warning(stdout, "trial %" PRIu64 " warning", idx);
+    const uint32_t leave = (uint32_t)(h >> 32) | 1u;
+    if (h & 8u) cmb_logger_flags_off(leave & ~(CMB_LOGGER_FATAL | CMB_LOGGER_ERROR));
+    return mix64(h ^ UINT64_C(0x10));
+}
+
+/* --- a small queueing simulation: customers share a resource, a producer and a
+ *     consumer share a buffer; an end event stops everybody --- */
+
+#define SIM_MAXP 8
+
+struct simctx {
+    struct cmb_resource *res;
+    struct cmb_buffer *buf;
+    struct cmb_process *procs[SIM_MAXP];
+    int nprocs;
+    double mean_ia, mean_sv;
+    uint64_t served, produced, consumed;
+    uint64_t acc;
+};
+
+struct simarg { struct simctx *sc; int id; };
+
+static void *customer_proc(struct cmb_process *me, void *vctx)
+{
+    cmb_unused(me);
+    const struct simarg *a = vctx;
+    struct simctx *sc = a->sc;
+    for (;;) {
+        (void)cmb_process_hold(cmb_random_exponential(sc->mean_ia));
+        if (cmb_resource_acquire(sc->res) != CMB_PROCESS_SUCCESS) continue;
+        (void)cmb_process_hold(cmb_random_exponential(sc->mean_sv));
+        cmb_resource_release(sc->res);
+        sc->served++;
+        ACC(sc->acc, dbits(cmb_time()) + (uint64_t)a->id);
+        if (cmb_random_flip()) ACC(sc->acc, 7u);
+    }
+}
+
+static void *producer_proc(struct cmb_process *me, void *vctx)
+{
+    cmb_unused(me);
+    const struct simarg *a = vctx;
+    struct simctx *sc = a->sc;
+    for (;;) {
+        (void)cmb_process_hold(cmb_random_exponential(0.7));
+        uint64_t n = 1u + (uint64_t)cmb_random_dice(0, 2);
+        (void)cmb_buffer_put(sc->buf, &n);
+        sc->produced++;
+        ACC(sc->acc, dbits(cmb_time()) ^ 0x50u);
+    }
+}
+
+static void *consumer_proc(struct cmb_process *me, void *vctx)
+{
+    cmb_unused(me);
+    const struct simarg *a = vctx;
+    struct simctx *sc = a->sc;
+    for (;;) {
+        uint64_t n = 1u;
+        (void)cmb_buffer_get(sc->buf, &n);
+        sc->consumed++;
+        ACC(sc->acc, dbits(cmb_time()) ^ 0xc0u);
+        (void)cmb_process_hold(cmb_random_uniform(0.1, 1.0));
+    }
+}
+
+static void sim_end_event(void *subject, void *object)
+{
+    cmb_unused(object);
+    struct simctx *sc = subject;
+    for (int k = 0; k < sc->nprocs; k++) cmb_process_stop(sc->procs[k], NULL);
+    cmb_event_queue_clear();
+}
+
+static uint64_t do_sim(const uint64_t h)
+{
+    struct simctx sc;
+    struct simarg args[SIM_MAXP];
+    memset(&sc, 0, sizeof sc);
+    cmb_logger_flags_on(UINT32_C(0xFFFFFFFF));
+    if ((h & 7u) != 0u) cmb_logger_flags_off(CMB_LOGGER_INFO);   /* 1 in 8 runs with info logging on */
+    cmb_logger_flags_off(CMB_LOGGER_WARNING);
+    cmb_random_initialize(h);
+    cmb_event_queue_initialize(0.0);
+
+    sc.acc = h;
+    sc.mean_ia = 1.0 + (double)((h >> 8) % 4u) * 0.5;
+    sc.mean_sv = 0.5 + (double)((h >> 12) % 4u) * 0.25;
+    sc.res = cmb_resource_create();
+    cmb_resource_initialize(sc.res, "Server");
+    sc.buf = cmb_buffer_create();
+    cmb_buffer_initialize(sc.buf, "Store", ((h >> 16) & 1u) ? UINT64_MAX : 3u);
+
+    const int ncust = 2 + (int)((h >> 20) % 3u);
+    for (int k = 0; k < ncust + 2; k++) {
+        args[k].sc = &sc;
+        args[k].id = k;
+        sc.procs[k] = cmb_process_create();
+        cmb_process_func *f = (k < ncust) ? customer_proc : (k == ncust ? producer_proc : consumer_proc);
+        cmb_process_initialize(sc.procs[k], (k < ncust) ? "Customer" : (k == ncust ? "Producer" : "Consumer"),
+                               f, &args[k], (int64_t)(k % 2));
+        cmb_process_start(sc.procs[k]);
+    }
+    sc.nprocs = ncust + 2;
+    const double t_end = 10.0 + (double)((h >> 24) % 20u);
+    (void)cmb_event_schedule(sim_end_event, &sc, NULL, t_end, 0);
+
+    cmb_event_queue_execute();
+
+    uint64_t d = sc.acc;
+    ACC(d, sc.served);
+    ACC(d, sc.produced);
+    ACC(d, sc.consumed);
+    ACC(d, dbits(cmb_time()));
+    ACC(d, cmb_buffer_level(sc.buf));
+
+    cmb_event_queue_terminate();
+    for (int k = 0; k < sc.nprocs; k++) {
+        cmb_process_terminate(sc.procs[k]);
+        cmb_process_destroy(sc.procs[k]);
+    }
+    cmb_buffer_destroy(sc.buf);
+    cmb_resource_destroy(sc.res);
+    if (h & 0x10u) cmb_random_terminate();
+    return d;
+}
+
+/* --- heavy use of the thread-local tag pools: m waiters on one target process
+ *     (awaitable + waiter tags), the target queues m objects (queue tags) --- */
+
+struct tagctx {
+    struct cmb_process *target;
+    struct cmb_objectqueue *oq;
+    unsigned m;
+    uint64_t acc;
+    uint64_t objs[1];       /* m entries follow */
+};
+
+struct tagarg { struct tagctx *tc; unsigned id; };
+
+static void *target_proc(struct cmb_process *me, void *vctx)
+{
+    cmb_unused(me);
+    struct tagctx *tc = vctx;
+    (void)cmb_process_hold(1.0 + cmb_random());
+    for (unsigned k = 0; k < tc->m; k++) {
+        tc->objs[k] = cmb_random_sfc64();
+        (void)cmb_objectqueue_put(tc->oq, &tc->objs[k]);
+    }
+    (void)cmb_process_hold(cmb_random_exponential(1.0));
+    return NULL;
+}
+
+static void *waiter_proc(struct cmb_process *me, void *vctx)
+{
+    cmb_unused(me);
+    const struct tagarg *a = vctx;
+    struct tagctx *tc = a->tc;
+    (void)cmb_process_hold((double)(a->id % 3u) * 0.25);
+    const int64_t sig = cmb_process_wait_process(tc->target);
+    ACC(tc->acc, (uint64_t)sig + a->id);
+    void *obj = NULL;
+    (void)cmb_objectqueue_get(tc->oq, &obj);
+    if (obj != NULL) ACC(tc->acc, *(uint64_t *)obj);
+    ACC(tc->acc, dbits(cmb_time()));
+    return NULL;
+}
+
+static uint64_t do_tags(const uint64_t h)
+{
+    static const unsigned sizes[8] = { 1u, 3u, 20u, 127u, 129u, 200u, 257u, 300u };
+    const unsigned m = sizes[(h >> 8) % 8u];
+    cmb_logger_flags_on(UINT32_C(0xFFFFFFFF));
+    cmb_logger_flags_off(CMB_LOGGER_INFO | CMB_LOGGER_WARNING);
+    cmb_random_initialize(h);
+    cmb_event_queue_initialize(0.0);
+
+    struct tagctx *tc = malloc(sizeof *tc + m * sizeof(uint64_t));
+    tc->m = m;
+    tc->acc = h;
+    tc->oq = cmb_objectqueue_create();
+    cmb_objectqueue_initialize(tc->oq, "Objects", UINT64_MAX);
+    tc->target = cmb_process_create();
+    cmb_process_initialize(tc->target, "Target", target_proc, tc, 0);
+    cmb_process_start(tc->target);
+    struct cmb_process **w = malloc(m * sizeof *w);
+    struct tagarg *wa = malloc(m * sizeof *wa);
+    for (unsigned k = 0; k < m; k++) {
+        wa[k].tc = tc;
+        wa[k].id = k;
+        w[k] = cmb_process_create();
+        cmb_process_initialize(w[k], "Waiter", waiter_proc, &wa[k], (int64_t)(k % 3u));
+        cmb_process_start(w[k]);
+    }
+
+    cmb_event_queue_execute();
+
+    uint64_t d = tc->acc;
+    ACC(d, dbits(cmb_time()));
+    ACC(d, cmb_objectqueue_length(tc->oq));
+
+    cmb_event_queue_terminate();
+    for (unsigned k = 0; k < m; k++) {
+        cmb_process_terminate(w[k]);
+        cmb_process_destroy(w[k]);
+    }
+    cmb_process_terminate(tc->target);
+    cmb_process_destroy(tc->target);
+    cmb_objectqueue_destroy(tc->oq);
+    free(w);
+    free(wa);
+    free(tc);
+    cmb_random_terminate();
+    return d;
+}
+
+/* --- same-instant, equal-priority waiters on one resource: the order of service is recorded --- */
+
+struct tiectx { struct cmb_resource *res; uint64_t acc; };
+struct tiearg { struct tiectx *tc; unsigned id; };
+
+static void *tie_proc(struct cmb_process *me, void *vctx)
+{
+    cmb_unused(me);
+    const struct tiearg *a = vctx;
+    if (cmb_resource_acquire(a->tc->res) == CMB_PROCESS_SUCCESS) {
+        ACC(a->tc->acc, a->id);
+        (void)cmb_process_hold(1.0);
+        cmb_resource_release(a->tc->res);
+    }
+    return NULL;
+}
+
+static uint64_t do_ties(const uint64_t h)
+{
+    const unsigned m = 3u + (unsigned)((h >> 8) % 6u);
+    cmb_logger_flags_on(UINT32_C(0xFFFFFFFF));
+    cmb_logger_flags_off(CMB_LOGGER_INFO | CMB_LOGGER_WARNING);
+    cmb_random_initialize(h);
+    cmb_event_queue_initialize(0.0);
+    struct tiectx tc = { cmb_resource_create(), h };
+    cmb_resource_initialize(tc.res, "Shared");
+    struct cmb_process *p[8];
+    struct tiearg a[8];
+    for (unsigned k = 0; k < m; k++) {
+        a[k].tc = &tc;
+        a[k].id = k;
+        p[k] = cmb_process_create();
+        cmb_process_initialize(p[k], "Tie", tie_proc, &a[k], 0);
+        cmb_process_start(p[k]);
+    }
+    cmb_event_queue_execute();
+    uint64_t d = tc.acc;
+    ACC(d, dbits(cmb_time()));
+    cmb_event_queue_terminate();
+    for (unsigned k = 0; k < m; k++) {
+        cmb_process_terminate(p[k]);
+        cmb_process_destroy(p[k]);
+    }
+    cmb_resource_destroy(tc.res);
+    cmb_random_terminate();
+    return d;
+}
+
+/* ---------------------------------------------------------- trial functions -- */
+
+static void trial_body(void *vt, const int called_kind)
+{
+    char *t = vt;
+    atomic_fetch_add(&g_inflight, 1);
+    atomic_fetch_add(&g_started, 1);
+    const intptr_t off = (intptr_t)((uintptr_t)t - (uintptr_t)g_base);
+    if (off < 0 || (uint64_t)off >= g.n * g.ssize || ((uint64_t)off % g.ssize) != 0u) {
+        /* not an element of the experiment array: do not touch it */
+        if (atomic_exchange(&g_badptr, 1) == 0) atomic_store(&g_badoff, (long)off);
+        atomic_fetch_add(&g_badcalls, 1);
+        atomic_fetch_sub(&g_inflight, 1);
+        return;
+    }
+    const uint64_t idx = (uint64_t)off / g.ssize;
+    if (g_calls != NULL && atomic_load(&g_calls[idx]) < 255u) atomic_fetch_add(&g_calls[idx], 1);
+
+    const int kind = kind_of(idx);
+    if (called_kind >= 0 && called_kind != kind) atomic_store(&g_wrongfunc, 1);
+    const int uses_rng = (kind == K_RNG || kind == K_FLIP || kind == K_SIM || kind == K_TAGS || kind == K_TIES);
+
+    if (my_worker < 0) {
+        my_worker = atomic_fetch_add(&g_nworkers, 1);
+    }
+    else {
+        atomic_fetch_add(&g_after_other, 1);
+        if (uses_rng && my_prev_used_rng) atomic_fetch_add(&g_rng_after_rng, 1);
+    }
+    if (uses_rng) my_prev_used_rng = 1;
+    if (my_worker < MAX_WORKERS) g_per_worker[my_worker]++;
+
+    const uint64_t h = trial_hash(idx);
+    uint64_t d;
+    switch (kind) {
+    case K_ZERO: d = h; break;
+    case K_BUSY: d = do_busy(h, 200u + (h >> 8) % 20000u); break;
+    case K_LONG: d = do_busy(h, 400000u + (h >> 8) % 400000u); break;
+    case K_RNG: d = do_rng(h); break;
+    case K_FLIP: d = do_flip(h); break;
+    case K_SIM: d = do_sim(h); break;
+    case K_TAGS: d = do_tags(h); break;
+    case K_TIES: d = do_ties(h); break;
+    case K_NAP: {
+        /* a trial that blocks (I/O-like): 8 .. 54 ms, longer for later trials, so that every worker is
+         * still inside a trial when the last one starts and the last-started finishes last. The
+         * duration is pure schedule provocation (not part of the result): the single-threaded
+         * reference runs skip the sleep. */
+        if (g.run == RUN_PAR) {
+            struct timespec ts = { 0, (long)(16u + 4u * (idx % 24u)) * 500000L };
+            nanosleep(&ts, NULL);
+        }
+        d = mix64(h ^ UINT64_C(0x4e41));
+        break;
+    }
+    default: d = do_log(idx, h); break;
+    }
+    elem_store(t, d);
+    atomic_fetch_add(&g_finished, 1);
+    atomic_fetch_sub(&g_inflight, 1);
+}
+
+static void trial_any(void *vt) { trial_body(vt, -1); }
+
+#define PERFUNC(name, k) static void name(void *vt) { trial_body(vt, k); }
+PERFUNC(trial_zero, K_ZERO)
+PERFUNC(trial_busy, K_BUSY)
+PERFUNC(trial_long, K_LONG)
+PERFUNC(trial_rng, K_RNG)
+PERFUNC(trial_flip, K_FLIP)
+PERFUNC(trial_sim, K_SIM)
+PERFUNC(trial_tags, K_TAGS)
+PERFUNC(trial_log, K_LOG)
+PERFUNC(trial_nap, K_NAP)
+PERFUNC(trial_ties, K_TIES)
+
+static cimba_trial_func *const per_kind_func[K_NKINDS] = {
+    trial_zero, trial_busy, trial_long, trial_rng, trial_flip, trial_sim, trial_tags, trial_log, trial_nap, trial_ties
+};
+
+/* ------------------------------------------------------------------ parsing -- */
+
+static int parse_kind(const char *s)
+{
+    for (int k = 0; k < K_NKINDS; k++) if (strcmp(s, kind_names[k]) == 0) return k;
+    return -1;
+}
+
+static int parse_case(char *text, struct xcase *c)
+{
+    char *cursor = text;
+    char *line;
+    char *tok[MAX_MIX + 2];
+    memset(c, 0, sizeof *c);
+    c->stride = 1;
+    while ((line = cimx_next_line(&cursor)) != NULL) {
+        const int nt = cimx_split(line, tok, MAX_MIX + 2);
+        if (nt < 2) return -1;
+        if (strcmp(tok[0], "run") == 0) {
+            if (strcmp(tok[1], "par") == 0) c->run = RUN_PAR;
+            else if (strcmp(tok[1], "seq") == 0) c->run = RUN_SEQ;
+            else if (strcmp(tok[1], "sub") == 0) c->run = RUN_SUB;
+            else return -1;
+        }
+        else if (strcmp(tok[0], "subplan") == 0 && nt >= 3) {
+            /* which subset "run sub" executes; carried by every variant of the case */
+            c->stride = cimx_u64(tok[1]);
+            c->offset = cimx_u64(tok[2]);
+            if (c->stride == 0) return -1;
+        }
+        else if (strcmp(tok[0], "func") == 0) {
+            if (strcmp(tok[1], "common") == 0) c->perfunc = 0;
+            else if (strcmp(tok[1], "per_trial") == 0) c->perfunc = 1;
+            else return -1;
+        }
+        else if (strcmp(tok[0], "variant") == 0) { /* which build runs the case: read by the Python side */ }
+        else if (strcmp(tok[0], "ntrials") == 0) c->n = cimx_u64(tok[1]);
+        else if (strcmp(tok[0], "ssize") == 0) c->ssize = (size_t)cimx_u64(tok[1]);
+        else if (strcmp(tok[0], "master") == 0) c->master = cimx_u64(tok[1]);
+        else if (strcmp(tok[0], "mix") == 0) {
+            c->nmix = 0;
+            for (int j = 1; j < nt && c->nmix < MAX_MIX; j++) {
+                const int k = parse_kind(tok[j]);
+                if (k < 0) return -1;
+                c->mix[c->nmix++] = (uint8_t)k;
+            }
+        }
+        else if (strcmp(tok[0], "tail") == 0 && nt >= 3) {
+            c->tail_n = cimx_u64(tok[1]);
+            c->tail_kind = parse_kind(tok[2]);
+            if (c->tail_kind < 0) return -1;
+        }
+        else return -1;
+    }
+    if (c->n == 0 || c->n > 400000u || c->nmix == 0) return -1;
+    if (c->ssize < 8u || (c->ssize % 8u) != 0u || c->ssize > 65536u) return -1;
+    if (c->perfunc && c->ssize < 16u) return -1;
+    if (c->n * c->ssize > (UINT64_C(96) << 20)) return -1;
+    return 0;
+}
+
+/* ------------------------------------------------------------------ running -- */
+
+#define FAILF(...) do { if (nfail < 12) { fprintf(trace, "F "); fprintf(trace, __VA_ARGS__); \
+                                          fprintf(trace, "\n"); } nfail++; } while (0)
+
+int mode_experiment(char *text, FILE *trace)
+{
+    if (parse_case(text, &g) != 0) {
+        fprintf(trace, "F parse error\n");
+        return CIMX_PARSE_ERROR;
+    }
+    /* cimba logs to stdout (redirected to /dev/null by the zygote); start from the documented default mask */
+    const uint64_t n = g.n;
+    const size_t S = g.ssize;
+    g_base = malloc(n * S);             /* exact size: ASan guards both ends */
+    g_calls = calloc(n, 1);
+    if (g_base == NULL || g_calls == NULL) {
+        fprintf(trace, "F out of memory\n");
+        return CIMX_PARSE_ERROR;
+    }
+    memset(g_base, 0, n * S);
+    for (uint64_t i = 0; i < n; i++) {
+        char *t = g_base + i * S;
+        if (g.perfunc) {
+            cimba_trial_func *f = per_kind_func[kind_of(i)];
+            memcpy(t, &f, sizeof f);
+        }
+        if (body_sz() >= 24u) {
+            const uint64_t gw = guard_word(i);
+            memcpy(t + S - 8u, &gw, 8u);
+        }
+    }
+
+    long finished_at_return = 0, inflight_at_return = 0, progress_after_return = 0;
+    if (g.run == RUN_PAR) {
+        cimba_run_experiment(g_base, n, S, g.perfunc ? NULL : trial_any);
+        /* "returns only after all calls have finished": nothing may be in flight now and no
+         * trial may start or finish from here on */
+        inflight_at_return = atomic_load(&g_inflight);
+        finished_at_return = atomic_load(&g_finished);
+        const long started_at_return = atomic_load(&g_started);
+        if (inflight_at_return != 0 || finished_at_return + atomic_load(&g_badcalls) < (long)n) {
+            /* let stragglers finish so that the remaining checks read quiescent memory */
+            for (int spin = 0; spin < 1500 && (atomic_load(&g_inflight) != 0
+                 || atomic_load(&g_finished) + atomic_load(&g_badcalls) < (long)n); spin++) {
+                struct timespec ts = { 0, 1000000 };
+                nanosleep(&ts, NULL);
+                if (spin >= 200 && atomic_load(&g_inflight) == 0
+                    && atomic_load(&g_started) == started_at_return) break;   /* nobody is coming */
+            }
+        }
+        progress_after_return = (atomic_load(&g_finished) - finished_at_return)
+                                + (atomic_load(&g_started) - started_at_return);
+    }
+    else {
+        const uint64_t first = (g.run == RUN_SUB) ? g.offset : 0u;
+        const uint64_t step = (g.run == RUN_SUB) ? g.stride : 1u;
+        for (uint64_t i = first; i < n; i += step) {
+            char *t = g_base + i * S;
+            if (g.perfunc) {
+                cimba_trial_func *f;
+                memcpy(&f, t, sizeof f);
+                (*f)(t);
+            }
+            else {
+                trial_any(t);
+            }
+        }
+    }
+
+    /* ---- in-executor oracle ---- */
+    int nfail = 0;
+    if (g.run == RUN_PAR) {
+        if (inflight_at_return != 0 || progress_after_return > 0) {
+            FAILF("cimba_run_experiment returned while trials were still running: %ld in flight, %ld of %" PRIu64
+                  " finished at return, %ld trial starts/ends observed after return",
+                  inflight_at_return, finished_at_return, n, progress_after_return);
+        }
+    }
+    if (atomic_load(&g_badptr)) {
+        FAILF("trial function called with a pointer that is not an element of the array (byte offset %ld, "
+              "array %" PRIu64 " x %zu bytes)", atomic_load(&g_badoff), n, S);
+    }
+    if (atomic_load(&g_wrongfunc)) FAILF("an element was passed to a trial function other than the one it names");
+    const uint64_t step = (g.run == RUN_SUB) ? g.stride : 1u;
+    const uint64_t first = (g.run == RUN_SUB) ? g.offset : 0u;
+    uint64_t executed = 0;
+    for (uint64_t i = 0; i < n; i++) {
+        const char *t = g_base + i * S;
+        const int expected = (i >= first && (i - first) % step == 0u) ? 1 : 0;
+        const unsigned calls = atomic_load(&g_calls[i]);
+        const uint64_t cnt = elem_counter(t);
+        executed += calls;
+        if ((int)calls != expected) {
+            FAILF("trial %" PRIu64 " of %" PRIu64 " (%s) was called %u times, expected %d", i, n,
+                  kind_names[kind_of(i)], calls, expected);
+        }
+        else if (cnt != (uint64_t)expected) {
+            FAILF("trial %" PRIu64 " of %" PRIu64 ": counter in its own element is %" PRIu64 ", expected %d",
+                  i, n, cnt, expected);
+        }
+        if (body_sz() >= 24u) {
+            uint64_t gw;
+            memcpy(&gw, t + S - 8u, 8u);
+            if (gw != guard_word(i)) FAILF("guard word at the end of element %" PRIu64 " was overwritten", i);
+            if (expected && calls == 1u) {
+                const uint64_t *w = (const uint64_t *)(const void *)(t + body_off());
+                const size_t npay = body_sz() / 8u - 3u;
+                for (size_t j = 0; j < npay; j++) {
+                    if (w[2 + j] != pay_word(w[1], j)) {
+                        FAILF("payload of element %" PRIu64 " does not match its digest at word %zu", i, j);
+                        break;
+                    }
+                }
+            }
+        }
+        if (g.perfunc) {
+            cimba_trial_func *f;
+            memcpy(&f, t, sizeof f);
+            if (f != per_kind_func[kind_of(i)]) FAILF("function pointer of element %" PRIu64 " was overwritten", i);
+        }
+    }
+    if (nfail > 12) fprintf(trace, "F ... %d failures in total\n", nfail);
+
+    /* ---- digests ---- */
+    for (uint64_t i = first; i < n && i < T_LINES; i += step) {
+        const char *t = g_base + i * S;
+        fprintf(trace, "T %" PRIu64 " %s %016" PRIx64 "\n", i, kind_names[kind_of(i)], elem_digest(t));
+    }
+    if (g.run != RUN_SUB) {
+        for (uint64_t b = 0; b * B_BLOCK < n; b++) {
+            uint64_t hsh = b;
+            for (uint64_t i = b * B_BLOCK; i < n && i < (b + 1u) * B_BLOCK; i++) {
+                ACC(hsh, elem_digest(g_base + i * S));
+            }
+            fprintf(trace, "B %" PRIu64 " %016" PRIx64 "\n", b, hsh);
+        }
+    }
+
+    /* ---- classification ---- */
+    const int nw = atomic_load(&g_nworkers);
+    long wmax = 0, wmin = -1;
+    for (int k = 0; k < nw && k < MAX_WORKERS; k++) {
+        if (g_per_worker[k] > wmax) wmax = g_per_worker[k];
+        if (wmin < 0 || g_per_worker[k] < wmin) wmin = g_per_worker[k];
+    }
+    unsigned kinds_present = 0;
+    const uint64_t probe = (n < 4096u) ? n : 4096u;
+    for (uint64_t i = 0; i < probe; i++) kinds_present |= 1u << kind_of(i);
+    fprintf(trace, "N run=%d trials=%" PRIu64 " ssize=%zu executed=%" PRIu64 " workers=%d wmax=%ld wmin=%ld "
+            "after_other=%ld rng_after_rng=%ld kinds=%u perfunc=%d mxcsr=%u\n",
+            (int)g.run, n, S, executed, nw, wmax, wmin < 0 ? 0 : wmin, atomic_load(&g_after_other),
+            atomic_load(&g_rng_after_rng), kinds_present, g.perfunc, (unsigned)_mm_getcsr());
+    if (nfail == 0) free(g_base);
+    return nfail ? CIMX_ORACLE_FAIL : CIMX_OK;
+}
